@@ -76,7 +76,8 @@ func builtinArrayConcat(call FunctionCall) Value {
 					if obj.hasProperty(name) {
 						valueArray = append(valueArray, obj.get(name))
 					} else {
-						valueArray = append(valueArray, Value{})
+						// A hole stays a hole (ECMA 262 15.4.4.4 step 5.b.iii).
+						valueArray = append(valueArray, emptyValue)
 					}
 				}
 				continue
